@@ -903,10 +903,14 @@ func (c *RaftCluster) GetStoresStats() *statistics.StoresStats {
 
 // DropCacheRegion removes a region from the cache.
 func (c *RaftCluster) DropCacheRegion(id uint64) {
-	c.RLock()
-	defer c.RUnlock()
+	c.Lock()
+	defer c.Unlock()
 	if region := c.GetRegion(id); region != nil {
 		c.core.RemoveRegion(region)
+		// The stores of the dropped region lost a region: refresh their statistics.
+		for _, p := range region.GetPeers() {
+			c.updateStoreStatusLocked(p.GetStoreId())
+		}
 	}
 }
 
